@@ -39,10 +39,34 @@ def make_index(kind: str, n: int, seed: int):
     raise ValueError(kind)
 
 
-def make_table(cols: dict, order, index_kind: str, form: str, seed: int, types):
+def convertible_dtypes(df, types, seed):
+    """Losslessly convertible dtypes for a seeded subset of columns (int64 for integral
+    float inputs, float64 for int inputs, 0/1 ints for bool inputs): the coercion path
+    must not disturb the correspondence between rows and results either."""
+    import numpy as np
+
+    rr = random.Random(f"conv:{seed}")
+    df = df.copy()
+    for c in df.columns:
+        if rr.random() < 0.6:
+            continue
+        t = types.get(c)
+        v = df[c].to_numpy()
+        if t is float and np.all(np.isfinite(v)) and np.all(v == np.round(v)) and np.all(np.abs(v) < 2**40):
+            df[c] = v.astype(np.int64)
+        elif t is int:
+            df[c] = v.astype(np.float64)
+        elif t is bool:
+            df[c] = v.astype(np.int64)
+    return df
+
+
+def make_table(cols: dict, order, index_kind: str, form: str, seed: int, types, conv=False):
     import pandas as pd
 
     df = popgen.to_frame({"cols": cols}, order=order, types=types)
+    if conv:
+        df = convertible_dtypes(df, types, seed)
     idx = make_index(index_kind, len(df), seed)
     if idx is not None:
         df.index = idx
@@ -52,7 +76,7 @@ def make_table(cols: dict, order, index_kind: str, form: str, seed: int, types):
 
 
 def run_variant(cols, variant, params, functions, targets, types):
-    data = make_table(cols, variant["order"], variant.get("index", "default"), variant.get("form", "frame"), variant.get("iseed", 0), types)
+    data = make_table(cols, variant["order"], variant.get("index", "default"), variant.get("form", "frame"), variant.get("iseed", 0), types, conv=bool(variant.get("conv")))
     return compare.run_call(data, params, functions, targets=targets, debug=bool(variant.get("debug", False)))
 
 
@@ -236,7 +260,7 @@ def explore(run_seed: int, cfg: dict) -> dict:
         n = popgen.n_rows(pop)
         case = {"pop_seed": pop["seed"], "n": n, "sig": popgen.structure_signature(pop), "canon": canon[0] if canon[0] == "frame" else canon[1], "varies": popgen.varies_over_rows(pop), "orders": [], "E": 0, "C": 0, "F": 0, "fp_amplified": 0, "unresolved": 0, "dtype_diff": 0, "probes": {}, "id_mode": pop["id_mode"]}
         for fam, order in special_orders(cols, r, cfg.get("n_random", 3)):
-            variant = {"order": order, "index": r.choice(INDEX_KINDS), "form": r.choice(FORMS), "iseed": r.randrange(1 << 20), "debug": r.random() < 0.15}
+            variant = {"order": order, "index": r.choice(INDEX_KINDS), "form": r.choice(FORMS), "iseed": r.randrange(1 << 20), "debug": r.random() < 0.2, "conv": r.random() < 0.25}
             rep = evaluate(cols, variant, params, functions, graph, types, canon=canon)
             case["orders"].append(fam)
             for kk in "ECF":
@@ -256,6 +280,34 @@ def explore(run_seed: int, cfg: dict) -> dict:
                 break  # one violation per population is enough
         if cfg.get("sample") and k == 0:
             case["sample"] = {"date": date, "cols": {c: v for c, v in cols.items() if len(set(v)) > 1 or c in ("p_id", "hh_id")}, "orders": case["orders"][:]}
+        out["cases"].append(case)
+    if cfg.get("crowd") and graph and r.random() < cfg.get("crowd_p", 0.34):
+        # size-dependent code paths: one table of a few hundred rows, a few orders
+        csize, cstyle = popgen.draw_crowd(r, cfg["crowd"])
+        pop = popgen.generate_crowd(r.randrange(1 << 30), year, csize, stat_values=stat, style=cstyle)
+        cols = pop["cols"]
+        n = popgen.n_rows(pop)
+        canon = run_variant(cols, {"order": list(range(n))}, params, functions, graph["order"], types)
+        case = {"pop_seed": pop["seed"], "n": n, "sig": "crowd", "canon": canon[0] if canon[0] == "frame" else canon[1], "varies": True, "orders": [], "E": 0, "C": 0, "F": 0, "fp_amplified": 0, "unresolved": 0, "dtype_diff": 0, "probes": {}, "id_mode": "crowd"}
+        ident = list(range(n))
+        orders = [("crowd_reversed", ident[::-1]), ("crowd_rotation", ident[n // 2 :] + ident[: n // 2])]
+        o = list(ident)
+        r.shuffle(o)
+        orders.append(("crowd_random", o))
+        for fam, order in orders:
+            variant = {"order": order, "index": "default", "form": "frame", "iseed": 0, "debug": False}
+            rep = evaluate(cols, variant, params, functions, graph, types, canon=canon)
+            case["orders"].append(fam)
+            for kk in "ECF":
+                case[kk] += rep["counts"][kk]
+            case["fp_amplified"] += len(rep["fp_amplified"])
+            case["unresolved"] += len(rep["unresolved"])
+            if rep["violating"]:
+                small = shrink({"date": date, "cols": cols, "variant": variant, "node": rep["violating"][0]}, params, functions, graph, types, budget=cfg.get("shrink_budget", 120))
+                small["family"] = fam
+                small["original_rows"] = n
+                out["violations"].append(small)
+                break
         out["cases"].append(case)
     if graph:
         out["n_nodes"] = len(graph["order"])
@@ -357,7 +409,7 @@ def shrink(case, params, functions, graph, types, budget=120):
 
     cur = {**case}
     # 0. simplest labelling / form
-    for simp in ({"index": "default"}, {"form": "frame"}, {"debug": False}):
+    for simp in ({"index": "default"}, {"form": "frame"}, {"debug": False}, {"conv": False}):
         k = next(iter(simp))
         if cur["variant"].get(k) not in (None, simp[k]):
             cand = {**cur, "variant": {**cur["variant"], **simp}}
